@@ -37,6 +37,21 @@ def ret_term(u, fn):
     return None
 
 
+VCFG = None
+
+
+def sx_single(db, fn):
+    """(value, events) of a branch-free member / function with helper lambdas applied and copies transparent: the same value
+    whether or not sub-expressions were given names or wrapped in small lambdas"""
+    global VCFG
+    if VCFG is None:
+        VCFG = sx.Config(inline_prefixes=("fcppt::optional::", "fcppt::cond"),
+                         pure_prefixes=("fcppt::random::distribution::base_value", "fcppt::random::distribution::decorated_value", "fcppt::cast::",
+                                        "fcppt::random::distribution::parameters::make_uniform_indices_advanced"))
+    ps = sx.Interp(db, VCFG).paths(fn, this=("sym", "this"), limit=8)
+    return ps
+
+
 def dedupe(fns):
     out = {}
     for fn in fns:
@@ -157,17 +172,56 @@ def main(rep, tier, only):
         C = R + "distribution::parameters::" + cls
         for fn in dedupe(db.fns(C + "::convert_from")):
             u = fn["_unit"]
-            t = ret_term(u, fn) or ""
-            want_t = r"\{base_value\(%s(\.get\(\))?\), base_value\(%s(\.get\(\))?\)\}$" % fields
-            ok = re.search(want_t, t)
+            t = ""
+            ok = False
+            try:
+                ps = sx_single(db, fn)
+                if len(ps) == 1 and ps[0].outcome[0] == "return":
+                    v = ps[0].outcome[1]
+                    t = sx.show(v)
+                    args = list(v[3]) if isinstance(v, tuple) and v and v[0] == "new" else []
+
+                    def src(a):
+                        """the member behind base_value(x): this.<field> directly or through .get()"""
+                        if not (isinstance(a, tuple) and a and a[0] == "app" and a[1].split("<")[0].endswith("base_value") and len(a[2]) == 1):
+                            return None
+                        x = a[2][0]
+                        if isinstance(x, tuple) and x and x[0] == "ev":
+                            e = ps[0].events[x[1] - 1]
+                            x = e[1][0] if e[0].split("<")[0].endswith("::get") and len(e[1]) == 1 else None
+                        return sx.show(x).replace("this.", "") if x is not None else None
+                    ok = [src(a) for a in args] == list(fields)
+            except sx.Unsupported as e:
+                rep.broken("C20 PARAM %s::convert_from: %s" % (cls, e))
+                continue
             (rep.ok if ok else rep.fail)("PARAM", cls + "::convert_from", F.primary_site(fn), F.describe(fn)[:160],
                                          **({"how": t[-90:]} if ok else {"why": "convert_from is `%s`, expected wrapped_param_type(base_value(%s), base_value(%s))" % (t, fields[0], fields[1])}))
         for fn in dedupe(db.fns(C + "::convert_to")):
             u = fn["_unit"]
-            t = ret_term(u, fn) or ""
-            i1 = t.find("r_a0.%s()" % getters[0])
-            i2 = t.find("r_a0.%s()" % getters[1])
-            ok = 0 <= i1 < i2 and t.count("decorated_value(") == 2
+            t = ""
+            ok = False
+            try:
+                ps = sx_single(db, fn)
+                if len(ps) == 1 and ps[0].outcome[0] == "return":
+                    v = ps[0].outcome[1]
+                    t = sx.show(v)
+                    args = list(v[3]) if isinstance(v, tuple) and v and v[0] == "new" else []
+
+                    def getter(a):
+                        while isinstance(a, tuple) and a and a[0] == "new" and len(a[3]) == 1:
+                            a = a[3][0]
+                        if not (isinstance(a, tuple) and a and a[0] == "app" and a[1].split("<")[0].endswith("decorated_value") and len(a[2]) == 1):
+                            return None
+                        x = a[2][0]
+                        if isinstance(x, tuple) and x and x[0] == "ev":
+                            e = ps[0].events[x[1] - 1]
+                            if len(e[1]) == 1 and sx.show(e[1][0]) == fn["params"][0]["name"]:
+                                return e[0].split("<")[0].split("::")[-1]
+                        return None
+                    ok = [getter(a) for a in args] == list(getters)
+            except sx.Unsupported as e:
+                rep.broken("C20 PARAM %s::convert_to: %s" % (cls, e))
+                continue
             (rep.ok if ok else rep.fail)("PARAM", cls + "::convert_to", F.primary_site(fn), F.describe(fn)[:160],
                                          **({"how": "(%s(), %s()) in order, decorated" % getters} if ok else {"why": "convert_to is `%s`" % t}))
     # ---- FACT
@@ -205,6 +259,19 @@ def main(rep, tier, only):
     for fn in dedupe(db.fns(R + "distribution::parameters::make_uniform_enum_advanced")):
         u = fn["_unit"]
         t = ret_term(u, fn) or ""
+        try:
+            ps_ = sx_single(db, fn)
+            if len(ps_) == 1 and ps_[0].outcome[0] == "return":
+                t = sx.show(ps_[0].outcome[1])      # copies and named intermediates are transparent in this view
+                ens = [str(x) for x in (fn.get("targs") or [])]
+                for uu in db.units:
+                    for e_ in uu.enums:
+                        if e_["qn"] in ens:
+                            mx = {x["name"]: x["value"] for x in e_["enumerators"]}.get("fcppt_maximum")
+                            if mx is not None:
+                                t = re.sub(r"fcppt::strong_typedef\{%s\}\}$" % re.escape(str(mx)), "fcppt::strong_typedef{max_value}}", t)
+        except sx.Unsupported:
+            pass
         ok = False
         m = re.search(r"int_to_enum\(0\)\}, fcppt::strong_typedef\{(.*)\}\}$", t)
         if m:
@@ -232,8 +299,26 @@ def main(rep, tier, only):
     for fn in dedupe(db.fns(R + "wrapper::make_uniform_container_advanced")):
         u = fn["_unit"]
         calls = [q for (_, _, q) in L.calls_in(u, fn.get("body"))]
-        ok = "fcppt::optional::map" in calls and R + "distribution::parameters::make_uniform_indices_advanced" in calls
-        (rep.ok if ok else rep.fail)("FACT", "make_uniform_container_advanced", F.primary_site(fn), F.describe(fn)[:160], **({"how": "map over indices optional"} if ok else {"why": "does not map over make_uniform_indices_advanced: %s" % calls}))
+        ok = False
+        why = "does not map over make_uniform_indices_advanced: %s" % calls
+        try:
+            ps_ = sx_single(db, fn)
+            c0 = fn["params"][0]["name"]
+            idx = "make_uniform_indices_advanced(%s)" % c0
+            rows = {}
+            for p in ps_:
+                dec = [(sx.show(a), b) for a, b in p.decisions]
+                if p.outcome[0] != "return" or len(dec) != 1 or dec[0][0] not in ("has_value(%s)" % idx, "has_value(%s.get())" % idx) or p.events:
+                    rows = None
+                    break
+                rows[dec[0][1]] = sx.show(p.outcome[1]).replace(" ", "")
+            if rows and set(rows) == {True, False}:
+                ok = rows[False].endswith(":none") and rows[True] == ("optional::object{wrapper::uniform_container{%s,some_payload(%s)}}:some" % (c0, idx)).replace(" ", "")
+                why = "the table is %s; expected nothing for an empty container and uniform_container(container, indices) otherwise" % rows
+        except sx.Unsupported as e:
+            rep.broken("C20 FACT make_uniform_container_advanced: %s" % e)
+            continue
+        (rep.ok if ok else rep.fail)("FACT", "make_uniform_container_advanced", F.primary_site(fn), F.describe(fn)[:160], **({"how": "nothing for an empty container, else uniform_container(container, indices)"} if ok else {"why": why}))
         break
     rep.explanation = ("Transparency is structural: each wrapper member is a single delegation to the wrapped std object, parameter "
                        "translation keeps positions, factories guard emptiness; plus 400 must-compile witnesses. Properties of the std "
